@@ -34,7 +34,8 @@ S = Suite(
           "{neutral, L=-50, L=+100} x {MOST, MOSTM} x grids {64x64 square, 128x64 and 64x128 with "
           "square cells, 64x64 with 2:1 cells} x 3 reference positions (50N 11E, 33S 179.9E, "
           "0N 70W) x speeds 2.5/4/7 m/s x zm 2/3/4 m; nz = 8, 5 m cells, single precision; other "
-          "heights, resolutions, off-centre towers not examined",
+          "heights, resolutions, off-centre towers not examined; 4 (quick) / 12 (thorough) directions through "
+          "run_bldfm_timeseries with use_cache and a repeated forcing (second step served from the cache)",
     rule="|bearing(centroid - tower) - wind_dir| <= 5 deg, centroid at least two cells away from "
          "the tower; |hypot(u,v) - s| <= 1e-12 s; cardinals to 1e-12 s",
 )
@@ -53,10 +54,12 @@ def angdiff(a, b):
 
 
 @S.kind("bearing")
-def bearing(wind_dir, mol, closure, grid, ref, wind_speed, zm):
+def bearing(wind_dir, mol, closure, grid, ref, wind_speed, zm, via="single"):
+    """via = "single": run_bldfm_single; "series-cached": the configuration asks for result caching and repeats the
+    forcing, run_bldfm_timeseries -- the LAST result (served from the cache the series created) is judged."""
     import numpy as np
     from bldfm.config_parser import parse_config_dict
-    from bldfm.interface import run_bldfm_single
+    from bldfm.interface import run_bldfm_single, run_bldfm_timeseries
     from bldfm.plotting._geo import xy_to_latlon
     nx, ny, dx, dy = GRIDS[grid]
     xmax, ymax = nx * dx, ny * dy
@@ -70,18 +73,28 @@ def bearing(wind_dir, mol, closure, grid, ref, wind_speed, zm):
                    "ref_lat": ref_lat, "ref_lon": ref_lon},
         "towers": [{"name": "T", "lat": float(lat), "lon": float(lon), "z_m": zm}],
         "met": {"ustar": 0.1 * wind_speed, "mol": mol, "wind_speed": wind_speed,
-                "wind_dir": wind_dir},
+                "wind_dir": wind_dir if via == "single" else [wind_dir, wind_dir]},
         "solver": {"closure": closure, "footprint": True},
+        "parallel": {"use_cache": via != "single"},
     })
     tw = cfg.towers[0]
     if abs(tw.x - xmax / 2.0) > 1e-6 or abs(tw.y - ymax / 2.0) > 1e-6:
         return Verdict(False, "tower local xy (%r,%r) is not the domain centre (%r,%r)"
                        % (tw.x, tw.y, xmax / 2.0, ymax / 2.0), key="tower-not-centred")
-    r = run_bldfm_single(cfg, tw)
-    X, Y, _ = r["grid"]
+    if via == "single":
+        r = run_bldfm_single(cfg, tw)
+    else:
+        import shutil
+        shutil.rmtree(".bldfm_cache", ignore_errors=True)
+        r = run_bldfm_timeseries(cfg, tw)[-1]
+        shutil.rmtree(".bldfm_cache", ignore_errors=True)
+    X, Y = r["grid"][0], r["grid"][1]
     f = np.asarray(r["flx"], dtype=float)
     if f.shape != (ny, nx) or not np.all(np.isfinite(f)):
         return Verdict(False, "footprint shape %r / non-finite" % (f.shape,), key="footprint-shape")
+    if np.shape(X) != f.shape or np.shape(Y) != f.shape:
+        return Verdict(False, ("" if via == "single" else "[%s] " % via) + "grid shapes %r %r do not match the footprint %r"
+                       % (np.shape(X), np.shape(Y), f.shape), key="grid-shape")
     tot = float(f.sum())
     if not tot > 0:
         return Verdict(False, "footprint sums to %r" % tot, key="footprint-empty")
@@ -90,7 +103,7 @@ def bearing(wind_dir, mol, closure, grid, ref, wind_speed, zm):
     dist = math.hypot(cx, cy)
     b = math.degrees(math.atan2(cx, cy)) % 360.0  # clockwise from north
     err = angdiff(b, wind_dir)
-    tag = "wd=%r L=%r %s %s %s ws=%r zm=%r: centroid %.1f m from the tower at bearing %.2f" \
+    tag = ("" if via == "single" else "[%s] " % via) + "wd=%r L=%r %s %s %s ws=%r zm=%r: centroid %.1f m from the tower at bearing %.2f" \
           % (wind_dir, mol, closure, grid, ref, wind_speed, zm, dist, b)
     if dist < 2.0 * max(dx, dy):
         return Verdict(False, tag + " - no upwind displacement", key="no-upwind-displacement")
@@ -175,6 +188,10 @@ def generate(tier, rng):
                     yield "bearing", dict(wind_dir=float(wd), mol=mol, closure=closure, grid=grid,
                                           ref=refs[k % 3], wind_speed=(4.0, 2.5, 7.0)[(k // 3) % 3],
                                           zm=(4.0, 2.0, 3.0)[(k // 9) % 3])
+    # ... the same through the series driver with result caching configured (second, identical step: a cache hit)
+    for k, wd in enumerate((0.0, 110.0, 270.0, 45.0) if q else range(0, 360, 30)):
+        yield "bearing", dict(wind_dir=float(wd), mol=(1e9, -50.0, 100.0)[k % 3], closure=("MOST", "MOSTM")[k % 2],
+                              grid=("square", "wide")[k % 2 if not q else (k // 2) % 2], ref=refs[k % 3], wind_speed=4.0, zm=3.0, via="series-cached")
     for k in range(12 if q else 96):
         yield "bearing", dict(wind_dir=round(rng.uniform(0.0, 360.0), 3),
                               mol=rng.choice([1e9, -50.0, 100.0, -15.0, 400.0]),
